@@ -1,10 +1,11 @@
 #!/bin/bash
-# usage: tools/run_all.sh [quick|thorough] [seed]  — runs every claimed check, prints one line each
-tier=${1:-quick}; seed=${2:-0}
+# usage: tools/run_all.sh [quick|thorough] [seed] [first-id]  — runs every claimed check (from first-id on), prints one line each
+tier=${1:-quick}; seed=${2:-0}; from=${3:-C01}
 cd "$(dirname "$0")/.."
 for p in $(/venv/bin/python -c "import json;print(' '.join(c['property_id'] for c in json.load(open('MANIFEST.json'))['checks']))"); do
+  [[ "$p" < "$from" ]] && continue
   s=$(date +%s)
   VERIF_SEED=$seed ./check $p --tier $tier > /tmp/runall_$p.log 2>&1; rc=$?
   e=$(date +%s)
-  echo "$p rc=$rc $((e-s))s $(grep -c KNOWN-FINDING /tmp/runall_$p.log) known; $(grep -E 'tier=' /tmp/runall_$p.log | cut -c1-160)"
+  echo "$p rc=$rc $((e-s))s $(grep -c KNOWN-FINDING /tmp/runall_$p.log) known; $(grep -E 'tier=' /tmp/runall_$p.log | cut -c1-160) $(grep -m2 '^VIOLATION' /tmp/runall_$p.log | tr '\n' ' ')"
 done
